@@ -856,7 +856,11 @@ func (s *Sim) Kill() (unreachable []string) {
 			}
 		}
 		if n == 0 {
-			break
+			// tasks that sleep (fake time) can only be reached once they wake
+			if !s.anyBlockedReal() || round > 40 {
+				break
+			}
+			time.Sleep(time.Hour)
 		}
 	}
 	for i := 0; i < len(s.tasks); i++ {
